@@ -8,9 +8,13 @@
 //!                     run one after the other); the publish log is compared with the model's
 //!                     `run`, and with the property oracle (highest version of the session,
 //!                     latest among equals, text = last content change).
-//! * `lsp_unawaited` — oracle only: the server with tower-lsp's default dispatch (4 handlers
-//!                     in flight), the client fires its notifications without waiting, as real
-//!                     editors do; only the final publish per document is checked.
+//! * `lsp_unawaited` — oracle only (regression oracle for fix 72c38ee): the shipped server
+//!                     (`agv-sg lsp`, child process over stdio); the client fires its
+//!                     notifications without waiting, as real editors do; the server must stay
+//!                     alive and the final publish per document must be the session's highest
+//!                     version.  Before the fix (tower-lsp's default dispatch, 4 handlers in
+//!                     flight; map guard held across `.await`) updates were lost and the server
+//!                     deadlocked.
 use super::Ctx;
 use crate::util::*;
 use ast_grep_config::{from_yaml_string, GlobalRules, RuleCollection, RuleConfig};
@@ -431,7 +435,7 @@ pub fn lsp_history(ctx: &Ctx, rng: &mut Rng, o: &mut Out) {
   let n = if ctx.thorough { 6000 } else { 400 };
   let (mut cases, mut crashes, mut notifications, mut publishes) = (0usize, 0usize, 0usize, 0usize);
   for i in 0..n {
-    let allow_empty = i % 25 == 7;
+    let allow_empty = i % 6 == 1;
     let h = gen_history(rng, allow_empty);
     let r = block_on_awaited(&rt, &h);
     let args = json!({"cfg": cfg_json(&h), "history": h.ops.iter().map(op_json).collect::<Vec<_>>()});
@@ -466,8 +470,10 @@ pub fn lsp_history(ctx: &Ctx, rng: &mut Rng, o: &mut Out) {
 async fn run_unawaited(h: &History, concurrency: Option<usize>) -> Value {
   let (tx, rx, server) = spawn_server(concurrency);
   let mut c = Client { tx, rx, buf: vec![], ws: if h.ws { Some(WS) } else { None }, pubs: vec![], eof: false, barrier_seen: 0 };
-  if !c.initialize().await {
-    return json!({"harness_error": "initialize failed"});
+  match tokio::time::timeout(Duration::from_secs(10), c.initialize()).await {
+    Ok(true) => {}
+    Ok(false) => return json!({"harness_error": "initialize failed"}),
+    Err(_) => return json!({"harness_error": "initialize: no answer within 10 s"}),
   }
   // fire everything, then drain until the server has been quiet for a while
   for op in &h.ops {
@@ -708,8 +714,9 @@ fn block_on_unawaited(h: &History, concurrency: Option<usize>) -> Value {
 }
 
 pub fn lsp_unawaited(ctx: &Ctx, rng: &mut Rng, o: &mut Out) {
-  let n = if ctx.thorough { 300 } else { 24 };
+  let n = if ctx.thorough { 300 } else { 40 };
   let (mut cases, mut lost, mut stuck, mut control_bad) = (0usize, 0usize, 0usize, 0usize);
+  let mut control_transient: Vec<Value> = vec![];
   let project = make_project(ctx.seed);
   for i in 0..n {
     // protocol-conforming single-document histories: open, then strictly increasing changes
@@ -721,9 +728,24 @@ pub fn lsp_unawaited(ctx: &Ctx, rng: &mut Rng, o: &mut Out) {
     }
     let h = History { ws: rng.chance(1, 2), uris: vec![rng.below(2)], ops };
     let hist = json!(h.ops.iter().map(op_json).collect::<Vec<_>>());
-    // control: the same unawaited client against sequential dispatch must satisfy the oracle
-    let rc = block_on_unawaited(&h, Some(1));
-    let control_ok = rc["alive"] == json!(true) && rc["pubs"].as_array().map(|p| oracle_latest(&h, p).is_empty()).unwrap_or(false);
+    // control: the same unawaited client against the in-process Backend with sequential
+    // dispatch must satisfy the oracle.  A run that gives no answer at all is repeated (twice):
+    // only a reproducible failure is a failure of the control; a transient one is counted and
+    // shown in the summary line (seen once in ~7 000 runs on a machine at load 29, not
+    // reproduced in 1 500 further runs; the shipped server below is judged without retry).
+    let control_of = |rc: &Value| rc["alive"] == json!(true) && rc["pubs"].as_array().map(|p| oracle_latest(&h, p).is_empty()).unwrap_or(false);
+    let mut rc = block_on_unawaited(&h, Some(1));
+    let mut control_ok = control_of(&rc);
+    if !control_ok && (rc == json!("hang") || rc.get("harness_error").is_some()) {
+      control_transient.push(json!({"result": rc, "history": hist, "ws": h.ws}));
+      for _ in 0..2 {
+        rc = block_on_unawaited(&h, Some(1));
+        control_ok = control_of(&rc);
+        if control_ok {
+          break;
+        }
+      }
+    }
     if !control_ok {
       control_bad += 1;
       o.oracle("lsp_unawaited_control", false, json!({"fp": "lsp unawaited notifications, sequential dispatch", "result": rc, "history": hist, "ws": h.ws}));
@@ -749,7 +771,7 @@ pub fn lsp_unawaited(ctx: &Ctx, rng: &mut Rng, o: &mut Out) {
   }
   let _ = std::fs::remove_dir_all(&project);
   o.oracle("lsp_unawaited", true, json!({"cases": cases, "server": "agv-sg lsp (child process, stdio)", "histories_with_lost_update": lost, "histories_server_stuck": stuck,
-    "control_sequential_dispatch_failures": control_bad}));
+    "control_sequential_dispatch_failures": control_bad, "control_transient_no_answer": control_transient}));
 }
 
 pub fn exec(op: &str, a: &Value) -> Option<Value> {
